@@ -121,3 +121,39 @@ def check_pkesk_selection(rep, prog, rid):
                   'with several recipients the packet used must be the one addressed to this key id (and algorithm)', where=fi.where,
                   expected='isinstance(pk, PKESessionKey) and pk.pkalg == self.key_algorithm and pk.encrypter == self.fingerprint.keyid',
                   found=t)
+
+
+def check_hash_object(rep, prog, rid, construct, text, S, where, scenario=None):
+    """The hash object handed to the key material must be the `cryptography` hash named like the signature's hash algorithm."""
+    direct = 'getattr(hashes, %s.hash_algorithm.name)()' % S
+    if text == direct:
+        rep.ok(rid, construct, 'hash object %s' % text, scenario=scenario)
+        return True
+    m = re.match(r'^%s\.hash_algorithm\.([A-Za-z_][A-Za-z0-9_]*)(\(\))?$' % re.escape(S), text or '')
+    if not m:
+        rep.violation(rid, construct, 'hash argument %s' % text,
+                      'the hash object must be built from the hash algorithm of the signature being processed', where=where,
+                      expected=direct, found=text, scenario=scenario)
+        return False
+    ci = prog.cls('pgpy.constants', 'HashAlgorithm')
+    g = ci.methods.get(m.group(1))
+    if g is None:
+        raise AnalysisError('HashAlgorithm.%s not found' % m.group(1))
+    from . import tables
+    ds = tables.dict_literals(g.node)
+    if len(ds) != 1:
+        raise AnalysisError('HashAlgorithm.%s: cannot read its lookup table' % m.group(1))
+    d = next(iter(ds.values()))
+    ok = True
+    for k, v in zip(d.keys, d.values):
+        kn = (dotted(k) or ast.unparse(k)).split('.')[-1]
+        vv = v.func if isinstance(v, ast.Call) else v
+        vn = (dotted(vv) or ast.unparse(vv)).split('.')[-1]
+        if kn != vn:
+            ok = False
+            rep.violation(rid, 'HashAlgorithm.%s' % m.group(1), 'table entry %s -> %s' % (kn, vn),
+                          'hash algorithm %s is mapped to the different hash function %s' % (kn, vn), where=g.where,
+                          expected='%s -> hashes.%s' % (kn, kn), found='%s -> %s' % (kn, ast.unparse(v)), scenario=scenario)
+    if ok:
+        rep.ok(rid, construct, 'hash object via identity table HashAlgorithm.%s' % m.group(1), scenario=scenario)
+    return ok
